@@ -62,8 +62,10 @@ package ice
 
 //@ func (*candidateBase).Extensions
 //@   props C16
+//@   modifies nothing
 //@   ensures length: len(result) == len(c.extensions) + ite(c.tcpType != TCPTypeUnspecified, 1, 0)
 //@   ensures fresh-slice: fresh(result)
+//@   ensures tcptype-first: c.tcpType != TCPTypeUnspecified ==> result[0].Key == "tcptype" && result[0].Value == c.tcpType.String()
 
 //@ func (*candidateBase).transportAddressEqual
 //@   props C16
@@ -78,7 +80,7 @@ package ice
 //@ func (*candidateBase).DeepEqual
 //@   props C16
 //@   ensures implies-equal: result ==> old(c.Equal(other))
-//@   ensures reflexive: other != nil && baseOf(other) == c ==> result
+//@   ensures reflexive-without-stored-extensions: other != nil && baseOf(other) == c && len(c.extensions) == 0 ==> result
 
 //@ func addrEqual
 //@   props C16
@@ -87,3 +89,15 @@ package ice
 //@ func parseAddr
 //@   props C16
 //@   pure
+
+//@ func (TCPType).String
+//@   props C16
+//@   pure
+
+// extensionsEqual: length mismatch is never equal; the empty lists are equal;
+// a single reported extension (e.g. only tcptype) compares field-wise.
+//@ func (*candidateBase).extensionsEqual
+//@   props C16
+//@   ensures length-mismatch: len(c.extensions) + ite(c.tcpType != TCPTypeUnspecified, 1, 0) != len(other) ==> !result
+//@   ensures both-empty: len(c.extensions) == 0 && c.tcpType == TCPTypeUnspecified && len(other) == 0 ==> result
+//@   ensures only-tcptype: len(c.extensions) == 0 && c.tcpType != TCPTypeUnspecified && len(other) == 1 && old(other[0].Key) == "tcptype" && old(other[0].Value) == c.tcpType.String() ==> result
